@@ -3,7 +3,8 @@
    of DeleteUnreferencedBlocks on top of Graph/GraphModel.v), proofs are in Sorter/*.v.
    All statements are for every graph: any number of blocks, any kinds, any references. *)
 From NiflyVerif Require Import Res GraphModel GraphInv GraphAdd GraphOrder
-  SorterModel SorterInv SorterChildren SorterIdem SorterSort SorterShapeOrder SorterFacts.
+  SorterModel SorterInv SorterChildren SorterIdem SorterSort SorterShapeOrder SorterFacts
+  SorterRename SorterIdemFull SorterRerun.
 From Coq Require Import Permutation.
 Local Open Scope N_scope.
 
@@ -89,6 +90,68 @@ Theorem C04_rebuild_fixed_point : forall ob g is_root ch,
   rebuild ob [] is_root g (rebuild ob [] is_root g ch) = rebuild ob [] is_root g ch.
 Proof. exact rebuild_fixed_point. Qed.
 Print Assumptions C04_rebuild_fixed_point.
+
+(* ---- sort_idem: sorting an already sorted model changes nothing ---- *)
+(* (a) the traversal is equivariant under a renumbering of the blocks: [pi] injective, fixing NPOS,
+   mapping the block range to itself; [rel pi n S st st2] says that st2 is st seen through pi (visited
+   set, numbered newIndices entries, counter, every reference field of every block). Every routine,
+   any graph, same fuel: related states in, related states out. *)
+Theorem C04_traversal_equivariant : forall (pi : N -> N) (n : N),
+  (forall a b, pi a = pi b -> a = b) -> pi NPOS = NPOS -> (forall i, pi i < n <-> i < n) ->
+  forall ob fuel c S, sim (rel pi n S) (sort_run ob [] fuel c) (sort_run ob [] fuel (rn pi c)).
+Proof. exact run_equivariant. Qed.
+Print Assumptions C04_traversal_equivariant.
+
+(* (b) the index computation run again on the block vector it leaves behind (child arrays rebuilt,
+   blocks not yet permuted) computes the same order and rebuilds nothing *)
+Theorem C04_rerun_same_order : forall ob f g st1,
+  refs_in_range g -> node_excl g -> pretty_indices f ob g = Ok st1 ->
+  pretty_indices f ob (st_gr st1) = Ok st1.
+Proof. exact rerun_final. Qed.
+Print Assumptions C04_rerun_same_order.
+
+(* (c) on the reordered graph the loop over the parentless nodes (which now runs in the new block
+   order) and the completing loop assign the identity *)
+Theorem C04_second_run_identity : forall ob f h stF,
+  vlen h < NPOS -> refs_in_range h -> node_shape_excl h -> node_coll_excl h ->
+  pretty_indices f ob h = Ok stF ->
+  forall h2, vlen h2 = vlen h ->
+  (forall i, vget h2 (remap_ref (st_nidx stF) i) = option_map (map_refs (remap_ref (st_nidx stF))) (vget h i)) ->
+  exists st2F, pretty_indices f ob h2 = Ok st2F /\
+    st_nidx st2F = map N.of_nat (seq 0 (length h2)) /\ vlen (st_gr st2F) = vlen h /\
+    forall i, vget (st_gr st2F) (remap_ref (st_nidx stF) i) =
+              option_map (map_refs (remap_ref (st_nidx stF))) (vget (st_gr stF) i).
+Proof. exact second_run. Qed.
+Print Assumptions C04_second_run_identity.
+
+(* the clause itself, for every model: fewer than 2^32-1 blocks, child references empty or in range, no
+   object that is a NiNode and also a NiShape, NiCollisionObject or NiTimeController; both runs on the
+   same fuel (the second needs no more than the first) *)
+Theorem C04_sort_idem : forall fuel m m',
+  vlen (sm_g m) < NPOS -> refs_in_range (sm_g m) -> node_excl (sm_g m) ->
+  pretty_sort fuel m = Ok m' -> pretty_sort fuel m' = Ok m'.
+Proof. exact sort_idem. Qed.
+Print Assumptions C04_sort_idem.
+
+(* the same with the hypotheses as one boolean check of the model *)
+Theorem C04_sort_idem_checked : forall fuel m m',
+  sortable_b (sm_g m) = true -> pretty_sort fuel m = Ok m' -> pretty_sort fuel m' = Ok m'.
+Proof. exact sort_idem_b. Qed.
+Print Assumptions C04_sort_idem_checked.
+
+(* outside the hypotheses it is false of the model: a dangling child index in an OB / FO3 file ... *)
+Theorem C04_sort_idem_refuted_dangling_ref :
+  exists fuel m m', pretty_sort fuel m = Ok m' /\ pretty_sort fuel m' <> Ok m' /\
+    vlen (sm_g m) < NPOS /\ node_excl_b (sm_g m) = true /\ refs_in_range_b (sm_g m) = false.
+Proof. exact sort_idem_refuted_dangling_ref. Qed.
+Print Assumptions C04_sort_idem_refuted_dangling_ref.
+
+(* ... and an object that is both NiNode and NiTimeController (no C++ class is) *)
+Theorem C04_sort_idem_refuted_node_controller :
+  exists fuel m m', pretty_sort fuel m = Ok m' /\ pretty_sort fuel m' <> Ok m' /\
+    vlen (sm_g m) < NPOS /\ refs_in_range_b (sm_g m) = true /\ node_excl_b (sm_g m) = false.
+Proof. exact sort_idem_refuted_node_controller. Qed.
+Print Assumptions C04_sort_idem_refuted_node_controller.
 
 (* after the whole sort: every block is the original one up to its child array, which holds the same
    set of children, none more often than before *)
@@ -226,6 +289,18 @@ Example C04_example_sorted :
   | _ => False
   end.
 Proof. vm_compute. split; reflexivity. Qed.
+
+(* sort_idem on a model that is not in sorted order: root node in block 2 with shapes 4 and 0, controller 3,
+   collision object 1 -> rigid body 5; the hypotheses hold, the sort permutes the blocks, the second
+   sort changes nothing *)
+Example C04_example_idem :
+  sortable_b (sm_g idem_ex) = true /\
+  match pretty_sort fuel100 idem_ex with
+  | Ok m' => map s_uid (sm_g m') = [2; 3; 5; 1; 4; 0] /\ map s_children (sm_g m') = [[4; 5]; []; []; []; []; []] /\
+             pretty_sort fuel100 m' = Ok m'
+  | _ => False
+  end.
+Proof. exact sort_idem_example. Qed.
 
 (* the inputs on which the unrepaired SetShapeOrder failed: root in block 1 (was: order [2; 1], a store
    outside the vector), one name twice (was: children [1; 1; 2]), an unresolved name with a shape
